@@ -39,6 +39,8 @@ pub struct SrvCfg {
     pub query_cache_threshold: f32,
     pub ef_search: usize,
     pub max_elements: usize,
+    /// tenants that hold a SECOND enabled key (rotation overlap)
+    pub second_key_for: Vec<String>,
 }
 
 impl Default for SrvCfg {
@@ -56,8 +58,15 @@ impl Default for SrvCfg {
             query_cache_threshold: 0.52,
             ef_search: 400,
             max_elements: 100_000,
+            second_key_for: Vec::new(),
         }
     }
+}
+
+/// the tenant's second key (only valid when the tenant is listed in `SrvCfg::second_key_for`)
+pub fn second_key_for(tenant: &str) -> String {
+    let k = key_for(&format!("{}-rotated", tenant));
+    format!("kyro_{}_{}", tenant, &k[k.len() - 32..])
 }
 
 pub fn key_for(tenant: &str) -> String {
@@ -117,6 +126,12 @@ impl Srv {
                 "  - key: {}\n    tenant_id: {}\n    tenant_name: Tenant {}\n    max_qps: {}\n    max_vectors: {}\n    enabled: {}\n    is_admin: {}\n",
                 key_for(&t.id), t.id, t.id, t.max_qps, t.max_vectors, t.enabled, t.admin
             ));
+            if self.cfg.second_key_for.contains(&t.id) {
+                y.push_str(&format!(
+                    "  - key: {}\n    tenant_id: {}\n    tenant_name: Tenant {}\n    max_qps: {}\n    max_vectors: {}\n    enabled: {}\n    is_admin: {}\n",
+                    second_key_for(&t.id), t.id, t.id, t.max_qps, t.max_vectors, t.enabled, t.admin
+                ));
+            }
         }
         std::fs::write(&keys, y).expect("keys");
         let c = &self.cfg;
